@@ -48,7 +48,10 @@ func c28calls() []c28call {
 }
 
 // gateway answer alternatives for one client datagram
-var c28alts = []string{"correct", "silence", "wrong type (PINGRESP)", "wrong msg id", "unsolicited REGISTER then correct", "DISCONNECT", "correct, twice"}
+var c28alts = []string{"correct", "silence", "wrong type (PINGRESP)", "wrong msg id", "unsolicited REGISTER then correct", "DISCONNECT", "correct, twice",
+	// one deviation each, although they last: the gateway never answers this type of datagram again / it repeats
+	// its (correct) answer 2.5 s, 5 s and 7.5 s later, as a gateway retransmitting to a client it believes deaf does
+	"silence for this and every later datagram of the type", "correct, and the same answer again after 2.5 s, 5 s and 7.5 s"}
 
 func c28answer(p refsn.Pkt, alt int) [][]byte {
 	a := ack(p)
@@ -103,13 +106,31 @@ func runC28(t *testing.T, k c28call, prefix []int) explore.ExecResult {
 		}
 		c.Take()
 		gwDisc := false
+		mute := map[byte]bool{}
 		var log []string
 		c.SetResponder(func(p refsn.Pkt, n int) [][]byte {
 			if p.Type == refsn.REGACK {
 				return nil
 			}
+			if mute[p.Type] {
+				return nil
+			}
 			alt := s.Choose(len(c28alts), "gateway answers "+p.Name())
 			log = append(log, p.Name()+"->"+c28alts[alt])
+			switch alt {
+			case 7:
+				mute[p.Type] = true
+				return nil
+			case 8:
+				a := ack(p)
+				if a == nil {
+					return nil
+				}
+				for _, d := range []time.Duration{2500 * time.Millisecond, 5 * time.Second, 7500 * time.Millisecond} {
+					s.AddTimer(d, nil, func() { c.Inject(a) }, false)
+				}
+				return [][]byte{a}
+			}
 			if alt == 5 && p.Type != refsn.DISCONNECT {
 				// (a DISCONNECT in answer to the client's own DISCONNECT is the correct reply, not a gateway-initiated one)
 				gwDisc = true
@@ -172,7 +193,7 @@ func TestC28(t *testing.T) {
 	rep := explore.NewReport("C28", "model_checking")
 	explore.RunScenarios(rep, scs, explore.ScenarioOpts{Test: "TestC28", QuickBound: 2, ThoroughFrom: 2, ThoroughMax: 4,
 		QuickBudget: 120 * time.Second, ThoroughBudge: 10 * time.Minute})
-	rep.Coverage["rule"] = "every blocking API call (Connect, Register, Subscribe, Unsubscribe, Publish q1/q2, Ping, Sleep, Disconnect, Close) issued in each of the client states fresh / connected / awake-after-a-sleep, against a scripted gateway that answers every datagram of the client correctly, not at all, with a wrong packet type, a wrong message id, an unsolicited REGISTER first, a DISCONNECT, or correctly but twice: all answer patterns with at most 2 deviations (thorough 4), then only timers; the call must return within (RetryCount+1) x ConnectTimeout / RetryDelay (+ sleep duration + the library's 1 minute PINGRESP wait for Sleep), and after Close / Disconnect / a gateway DISCONNECT no client goroutine is alive 1.1 s later"
+	rep.Coverage["rule"] = "every blocking API call (Connect, Register, Subscribe, Unsubscribe, Publish q1/q2, Ping, Sleep, Disconnect, Close) issued in each of the client states fresh / connected / awake-after-a-sleep, against a scripted gateway that answers every datagram of the client correctly, not at all, with a wrong packet type, a wrong message id, an unsolicited REGISTER first, a DISCONNECT, correctly but twice, never again for that type of datagram, or correctly and again 2.5 / 5 / 7.5 s later: all answer patterns with at most 2 deviations (thorough 4), then only timers; the call must return within (RetryCount+1) x ConnectTimeout / RetryDelay (+ sleep duration + the library's 1 minute PINGRESP wait for Sleep), and after Close / Disconnect / a gateway DISCONNECT no client goroutine is alive 1.1 s later"
 	rep.Assumptions = []string{"default schedule (environment choices only); virtual time", "ConnectTimeout 2 s, RetryDelay 1 s, RetryCount 2, KeepAlive off"}
 	rep.Finish()
 }
